@@ -3,6 +3,7 @@ CONSTANTS
   Budget = 7
   Enabled = {"Name", "Call", "Comp", "Starred", "Expression"}
   NameSet = {"a"}
+  ExtraParens = FALSE
   Emit = TRUE
 SPECIFICATION Spec
 INVARIANTS EmitOK
